@@ -329,6 +329,10 @@ def cqm_case(ctx, r, B, spec):
               'header JSON text', rp)
         B.add(f'parsecnt cqm {F.hx(text)}', cqm_counts(hv), 'read_header + header use vs parseCqmHeader', ic, 'header counts parsed from the text', rp)
         eocd_case(ctx, B, data, 'ConstrainedQuadraticModel.from_file', ic, rp)
+        # round 8: the two side conditions of C10.truncation_safe_cqm_tiled that concern names, not payload, on every file:
+        # the aligned header holds no end-record signature, the last member's name holds no byte 0x06
+        ctx.tick('C10.truncation_safe_cqm_tiled side conditions (header without PK\\x05\\x06, last member name without 0x06): ' +
+                 ('hold' if SIG not in data[:hend] and members and 6 not in members[-1][0].encode() else 'DO NOT HOLD'))
         zip_case(ctx, B, data, hend, 'ConstrainedQuadraticModel.to_file', ic, rp)
         is_range = variables == list(range(len(variables)))
         lt = 'none' if is_range else F.hx(json.dumps(m.variables.to_serializable()).encode())
